@@ -39,7 +39,10 @@ type SysDB struct {
 	DB         *bun.DB
 	// Responder, when set, may answer any other statement (nil result = not handled).
 	Responder func(ctx context.Context, c *pgshim.Conn, kind, sql string) (*pgshim.Rows, bool, error)
-	Unknown   []string
+	// AfterSys, when set, runs after a statement on _system.ledgers has been answered and before the
+	// answer is returned to the caller (no SysDB lock held): a deterministic interleaving point.
+	AfterSys func(sql string)
+	Unknown  []string
 }
 
 var (
@@ -137,6 +140,11 @@ func (s *SysDB) handle(ctx context.Context, c *pgshim.Conn, kind, q string) (*pg
 	}
 	if m := reSysStmt.FindStringSubmatch(t); m != nil {
 		if r, handled, err := s.sysStatement(t); handled || err != nil {
+			if h := s.AfterSys; h != nil && err == nil {
+				// interleaving point: the statement has been answered from the state as of now; the hook may let
+				// "another request" run to completion before the caller sees the answer
+				h(t)
+			}
 			if err != nil {
 				s.mu.Lock()
 				s.Unknown = append(s.Unknown, t)
